@@ -14,10 +14,13 @@ import "time"
 // algebra do not fork on them; the core job keeps them symbolic.
 var vhLean, vhLeanEpoch bool
 
-// vhStatusAlt: 0 every member Up; 1 the first id Suspect, the others Up; 2 the
-// second id Suspect, the others Up (one choice per run: the status only feeds
-// the healthy/unhealthy counters and the version-vector pruning)
+// vhStatusAlt: 0 every member Up; 1 the first id Suspect in every view, the
+// others Up; 2 the second id Suspect in every view; 3 the first id Suspect only
+// in the second view built; 4 only in the first view built (one choice per run)
 var vhStatusAlt int
+
+// vhViewNo counts the views built so far in this run.
+var vhViewNo int
 
 func vhMember(id string) *NodeState {
 	g := vrtInt32()
@@ -27,7 +30,8 @@ func vhMember(id string) *NodeState {
 	// the status only feeds the healthy/unhealthy counters, which the
 	// property does not mention: one choice per run instead of a symbolic value
 	st := MemberStatusUp
-	if !vhLean && ((vhStatusAlt == 1 && id == vhIDs[0]) || (vhStatusAlt == 2 && id == vhIDs[1])) {
+	if !vhLean && ((vhStatusAlt == 1 && id == vhIDs[0]) || (vhStatusAlt == 2 && id == vhIDs[1]) ||
+		(vhStatusAlt == 3 && id == vhIDs[0] && vhViewNo == 2) || (vhStatusAlt == 4 && id == vhIDs[0] && vhViewNo == 1)) {
 		st = MemberStatusSuspect
 	}
 	return &NodeState{ID: id, ClusterName: "c", Address: "addr-" + id, Generation: int(g), LogicalClock: lc,
@@ -39,6 +43,7 @@ func vhMember(id string) *NodeState {
 // members keyed by their own ID, non-nil; the version vector mentions only
 // current members; MaxVersionVectorEntries == 0.
 func vhReachableView(k int) *ClusterView {
+	vhViewNo++
 	v := &ClusterView{ViewID: "v", Epoch: 5, Timestamp: 7, Members: map[string]*NodeState{},
 		VersionVector: NewVersionVector(), ProtocolVersion: ProtocolVersion}
 	if !vhLean && !vhLeanEpoch {
@@ -111,7 +116,7 @@ func vhOpts() MergeOptions {
 // VH_C17_merge_pair: union, newest incarnation, no regression, monotone epoch
 // and member version-vector entries, changed flag, idempotence, commutativity.
 func VH_C17_merge_pair() {
-	vhStatusAlt = vrtChoose(3)
+	vhStatusAlt = vrtChoose(5)
 	k := vrtParam("ids", 2)
 	// mode 0: membership dimension (epochs/timestamps/protocol concrete and
 	// equal, no clock-skew option); mode 1: epoch dimension (symbolic epochs,
